@@ -162,6 +162,13 @@ def _worker_inner(prop_id, tier, seed, widx, nworkers, n_examples, mode,
     st['prereq_failed'] += out.prereq_failed
     for c in set(out.classes):
       st['classes'][c] = st['classes'].get(c, 0) + 1
+    if origin == 'generated':
+      # generator-health floors are judged on the Hypothesis-generated cases only (enumerated
+      # sweeps would dilute or inflate the class rates)
+      st['gen_judged'] = st.get('gen_judged', 0) + 1
+      for c in set(out.classes):
+        st.setdefault('gen_classes', {})
+        st['gen_classes'][c] = st['gen_classes'].get(c, 0) + 1
     if out.nontrivial:
       h = case_hash(case)
       if h not in st['nontrivial_hashes']:
@@ -461,9 +468,15 @@ def _campaign(mod, prop_id, tier, seed, t0):
   total_cls = max(judged, 1)
   class_frac = {k: round(v / total_cls, 4) for k, v in sorted(classes.items())}
   starved = []
-  for k, floor in getattr(mod, 'FLOORS', {}).items():
-    if classes.get(k, 0) / total_cls < floor:
-      starved.append(f'{k}: {classes.get(k, 0)}/{total_cls} < {floor}')
+  gen_judged = sum(r.get('gen_judged', 0) for r in results)
+  gen_classes = {}
+  for r in results:
+    for k, v in r.get('gen_classes', {}).items():
+      gen_classes[k] = gen_classes.get(k, 0) + v
+  if gen_judged >= 200:
+    for k, floor in getattr(mod, 'FLOORS', {}).items():
+      if gen_classes.get(k, 0) / gen_judged < floor:
+        starved.append(f'{k}: {gen_classes.get(k, 0)}/{gen_judged} generated cases < {floor}')
   wall = time.time() - t0
   if not samples:
     samples = [info['case'] for _, info in ordered[:2]]
@@ -484,6 +497,7 @@ def _campaign(mod, prop_id, tier, seed, t0):
           'excluded_known': known_hits,
           'prerequisite_failed': sum(r['prereq_failed'] for r in results),
           'enumerated': sum(r.get('enumerated', 0) for r in results),
+          'generated_class_rates': {k: round(v / max(gen_judged, 1), 4) for k, v in sorted(gen_classes.items())},
           'replayed_files': replayed,
           'workers': nworkers,
           'budget_skipped': budget_skipped,
